@@ -120,6 +120,9 @@ def observe(g):
             "bonds": sorted((min(u, v), max(u, v), dict(d)) for u, v, d in g.edges(data=True))}
 
 
+STATED_ATOM_KEYS = ("element_symbol", "atomic_number", "chg", "rad", "mass", "x_coord", "y_coord", "z_coord")
+
+
 def diff_expected(g, exp):
     """list of differences between a graph returned by the reader and expected(MM); [] = equal"""
     out = []
@@ -133,6 +136,9 @@ def diff_expected(g, exp):
         got = dict(got)
         part = got.pop("partition", 0)
         inv = got.pop("invariant_code", None)
+        # the properties speak about element, charge, radical, isotope mass and coordinates; further attributes a reader may
+        # decode in addition (atom-atom mapping, stereo marks, ...) are not part of the statement
+        got = {k: v for k, v in got.items() if k in STATED_ATOM_KEYS}
         if got != want:
             ks = sorted(set(got) | set(want))
             out.append("atom %d: " % i + ", ".join("%s got %r want %r" % (k, got.get(k, "<absent>"), want.get(k, "<absent>"))
@@ -145,9 +151,7 @@ def diff_expected(g, exp):
     gb = [(u, v, d.get("bond_type")) for u, v, d in ob["bonds"]]
     if gb != exp["bonds"]:
         out.append("bonds got %s want %s" % ([b for b in gb if b not in exp["bonds"]][:6], [b for b in exp["bonds"] if b not in gb][:6]))
-    for u, v, d in ob["bonds"]:
-        if set(d) - {"bond_type"}:
-            out.append("bond %d-%d: extra data %r" % (u, v, d))
+    # (bond data beyond the bond type -- stereo configuration, topology, ... -- is likewise outside the statement)
     return out
 
 
